@@ -303,6 +303,95 @@ class Model:
         assert end == size, (end, size)
         return bytes(buf), size
 
+    # ------------------------------------------------ structure walker (C06)
+    def walk_level(self, L, buf, pos, bl, ctrl):
+        """members after the block of a level instance; returns end position or None when the structure does not fit"""
+        n = len(buf)
+        if bl < L.min_block_length:
+            self.walk_short_block = True
+        if pos + bl > n:
+            self.walk_fail = "block" if L.is_message else "entry-block"
+            return None
+        pos += bl
+        for g in L.groups:
+            pos = self.walk_group(g, buf, pos, ctrl)
+            if pos is None:
+                return None
+        for d in L.data:
+            if pos + d.header_size > n:
+                self.walk_fail = "data-header"
+                return None
+            lm = self.member(d.encoding, "length")
+            ln = self.unpack(buf[pos + lm.offset: pos + lm.offset + lm.size])
+            ctrl.append(("length", pos + lm.offset, lm.size, d.name))
+            pos += d.header_size
+            if pos + ln > n:
+                self.walk_fail = "data-payload"
+                return None
+            pos += ln
+        return pos
+
+    def walk_group(self, g, buf, pos, ctrl):
+        n = len(buf)
+        dim = g.dimension
+        ctrl.append(("group", pos, 0, g.path))
+        if pos + dim.size > n:
+            self.walk_fail = "group-header"
+            return None
+        blm, nm = self.member(dim, "blockLength"), self.member(dim, "numInGroup")
+        bl = self.unpack(buf[pos + blm.offset: pos + blm.offset + blm.size])
+        cnt = self.unpack(buf[pos + nm.offset: pos + nm.offset + nm.size])
+        ctrl.append(("blockLength", pos + blm.offset, blm.size, g.name))
+        ctrl.append(("numInGroup", pos + nm.offset, nm.size, g.name))
+        pos += dim.size
+        if not g.groups and not g.data:
+            # flat: closed form (numInGroup may be astronomically large)
+            total = cnt * bl
+            if cnt > 0 and bl < g.min_block_length:
+                self.walk_short_block = True
+            if bl == 0 and cnt > 1000:
+                self.walk_zero_flat = True
+            if pos + total > n:
+                self.walk_fail = "flat-entries"
+                return None
+            self.walk_flat = (cnt, bl)
+            return pos + total
+        for _ in range(cnt):
+            pos = self.walk_level(g, buf, pos, bl, ctrl)
+            if pos is None:
+                return None
+        return pos
+
+    def walk_message(self, L, buf):
+        """(fits, size, control fields) of the message structure the bytes describe, using wire values only"""
+        ctrl = []
+        n = len(buf)
+        self.walk_fail = None
+        self.walk_flat = None
+        self.walk_zero_flat = False
+        self.walk_short_block = False
+        if self.header.size > n:
+            self.walk_fail = "message-header"
+            return False, 0, ctrl
+        blm = self.member(self.header, "blockLength")
+        bl = self.unpack(buf[blm.offset: blm.offset + blm.size])
+        ctrl.append(("blockLength", blm.offset, blm.size, L.name))
+        end = self.walk_level(L, buf, self.header.size, bl, ctrl)
+        if end is None:
+            return False, 0, ctrl
+        return True, end, ctrl
+
+    def walk_group_view(self, g, buf):
+        ctrl = []
+        self.walk_fail = None
+        self.walk_flat = None
+        self.walk_zero_flat = False
+        self.walk_short_block = False
+        end = self.walk_group(g, buf, 0, ctrl)
+        if end is None:
+            return False, 0, ctrl
+        return True, end, ctrl
+
     # ----------------------------------------------------------------- dump
     def enum_value_name(self, m, value):
         for v in m.target["values"]:
